@@ -298,17 +298,14 @@ fn mac3(acc: &mut [BigDigit], b: &[BigDigit], c: &[BigDigit])
     ensures final(acc).len() == old(acc).len(), val(final(acc)@) == val(old(acc)@) + val(b@) * val(c@)
 { unimplemented!() }
 
+pub open spec fn p2(k: nat) -> nat { vstd::arithmetic::power2::pow2(k) }
 impl vstd::std_specs::ops::ShlAssignSpecImpl<u32> for BigUint {
     open spec fn obeys_shl_assign_spec() -> bool { false }
     open spec fn shl_assign_req(&self, rhs: u32) -> bool { self.wf() }
     open spec fn shl_assign_spec(&self, rhs: u32) -> &BigUint { arbitrary() }
 }
 impl core::ops::ShlAssign<u32> for BigUint {
-    //@ assume BigUint:ShlAssign<u32> : shift front-end (generic PrimInt biguint_shl / biguint_shl2 with Cow): assumed contract x << k == x * 2^k
-    #[verifier::external_body]
-    fn shl_assign(&mut self, rhs: u32)
-        ensures final(self).wf(), final(self).v() == old(self).v() * vstd::arithmetic::power2::pow2(rhs as nat)
-    { unimplemented!() }
+//@ stub u_shiftops/shl_assign_u32
 }
 
 pub proof fn lemma_prod_bound(x: Seq<u64>, y: Seq<u64>)
